@@ -92,14 +92,35 @@ def one_case(spec):
                                          f"expected {exp.gvals[name]!r:.60}"), "slot"
                 if bad:
                     out["mismatches"].append({"options": tag, "ctx": ci, "what": bad, "kind": kind})
+    # the recorded optimiser finding: every mismatch occurs with the optimiser on and vanishes when the multiply-stored slots are withheld
     out["known_multistore"] = False
-    if any(m["kind"] == "stack" for m in out["mismatches"]):
+    if out["mismatches"] and all(optimizer_on(m["options"], spec["version"]) for m in out["mismatches"]):
         try:
-            e = progsem.build(prog)
-            t0 = pt.compileTeal(e, mode, version=spec["version"], optimize=pt.OptimizeOptions(scratch_slots=False))
-            out["known_multistore"] = multistore_signature(t0)
+            explained = True
+            for tag in sorted({m["options"] for m in out["mismatches"]}):
+                opt = next(o for o in spec["options"] for a in spec.get("assemble", [False])
+                           if f"ss={o.get('scratch_slots')} fp={o.get('frame_pointers')} asm={a}" == tag)
+                asm = tag.endswith("asm=True")
+                with repaired_optimizer() as ro:
+                    teal = pt.compileTeal(progsem.build(prog), mode, version=spec["version"], assembleConstants=asm,
+                                          optimize=pt.OptimizeOptions(scratch_slots=opt.get("scratch_slots"), frame_pointers=opt.get("frame_pointers")))
+                if not ro.withheld:
+                    explained = False
+                    break
+                for ci, c in enumerate(ctxs):
+                    got = avm.run(teal, clone_ctx(c))
+                    exp = expected[ci]
+                    ok = got.observable() == exp.observable() and not (got.verdict in ("approve", "reject") and got.final_stack)
+                    if ok and got.verdict in ("approve", "reject"):
+                        ok = all(slot is None or got.scratch.get(slot, 0) == exp.gvals[name] for name, ty, slot in prog.gvars)
+                    if not ok:
+                        explained = False
+                        break
+                if not explained:
+                    break
+            out["known_multistore"] = explained
         except Exception:
-            pass
+            out["known_multistore"] = False
     if not out["mismatches"]:
         out["teals"] = {}
     else:
@@ -115,6 +136,46 @@ def one_case(spec):
 def optimizer_on(tag: str, version: int) -> bool:
     """does the option tag of a mismatch (`ss=<scratch_slots> fp=... asm=...`) run the slot optimiser at this version?"""
     return "ss=True" in tag or ("ss=None" in tag and version >= 9)
+
+
+class repaired_optimizer:
+    """Exact attribution of the recorded optimiser finding (known_findings O3.4).  Inside this context the real
+    `_remove_extraneous_slot_access` is called with the slots it was asked to remove MINUS those that are stored more than once in
+    the routine (removing such a slot is the recorded defect: the other stores' values stay on the stack).  Everything else is the
+    real code of the tree under test.  A mismatch is the recorded finding iff it disappears under this wrapper AND the wrapper
+    withheld at least one slot; any mismatch that survives is something else and is reported.  Nothing in /repo is modified."""
+
+    def __init__(self):
+        self.withheld = 0
+        self.applied = False
+
+    def __enter__(self):
+        from pyteal.compiler.optimizer import optimizer as O
+        from pyteal.ir import Op, TealBlock, TealOp
+        self.O = O
+        self.orig = getattr(O, "_remove_extraneous_slot_access", None)
+        if self.orig is None:
+            return self
+        outer = self
+
+        def wrapped(start, remove):
+            stores = {}
+            for block in TealBlock.Iterate(start):
+                for op in block.ops:
+                    if type(op) is TealOp and op.getOp() == Op.store:
+                        for sl in op.getSlots():
+                            stores[sl] = stores.get(sl, 0) + 1
+            safe = {sl for sl in remove if stores.get(sl, 0) <= 1}
+            outer.withheld += len(set(remove) - safe)
+            return outer.orig(start, safe)
+        O._remove_extraneous_slot_access = wrapped
+        self.applied = True
+        return self
+
+    def __exit__(self, *a):
+        if self.applied:
+            self.O._remove_extraneous_slot_access = self.orig
+        return False
 
 
 def multistore_signature(teal_unoptimised: str) -> bool:
